@@ -264,6 +264,16 @@ func init() {
 		}
 		sb.WriteString("def wakeSendBlocking : Bool := " + wk + "\n")
 		sb.WriteString("def isReadyRecvs : List String := " + LeanStrList(c08Recvs(isReady)) + "\n")
+		// the suspend / wake-up handshake: the channel the constructor makes (capacity), and the loop's program in
+		// IsReady's follower-offline branch (every call, receive and the recursion, in source order)
+		mk := c08KeyValue(FindFunc(rr, "", "NewRemoteReplicator"), "suspend")
+		sb.WriteString("def suspendChanMake : String := " + fmt.Sprintf("%q", mk) + "\n")
+		buffered := "true"
+		if mk == "suspend: make(chan struct{})" {
+			buffered = "false"
+		}
+		sb.WriteString("def suspendChanBuffered : Bool := " + buffered + "\n")
+		sb.WriteString("def offlineBranchSteps : List String := " + LeanStrList(c08OfflineBranch(isReady)) + "\n")
 		sb.WriteString("def replicaAckArg : String := " + fmt.Sprintf("%q", c08Text(c08CallArg(replica, "r.SetAckIndex", 0))) + "\n")
 		sb.WriteString("def connectCalls : List String := " + LeanStrList(c08Calls(FindFunc(rr, "remoteReplicator", "Connect"))) + "\n")
 		sb.WriteString("def partitionReplicaCalls : List String := " + LeanStrList(c08Calls(FindFunc(pt, "partition", "replica"))) + "\n\n")
@@ -531,6 +541,50 @@ func c08Recvs(fd *ast.FuncDecl) []string {
 	ast.Inspect(fd.Body, func(n ast.Node) bool {
 		if u, ok := n.(*ast.UnaryExpr); ok && u.Op == token.ARROW {
 			out = append(out, "<-"+types.ExprString(u.X))
+		}
+		return true
+	})
+	return out
+}
+
+// c08OfflineBranch lists, in source order, what the body of IsReady's `if !ok {` (follower not live) does:
+// calls (receiver chain shortened to its last two names), channel receives, if-conditions; logging,
+// statistics and the verif yield points are left out.
+func c08OfflineBranch(fd *ast.FuncDecl) []string {
+	var out []string
+	if fd == nil || fd.Body == nil {
+		return nil
+	}
+	var body *ast.BlockStmt
+	ast.Inspect(fd.Body, func(n ast.Node) bool {
+		if is, ok := n.(*ast.IfStmt); ok && body == nil && types.ExprString(is.Cond) == "!ok" {
+			body = is.Body
+			return false
+		}
+		return true
+	})
+	if body == nil {
+		return []string{"<missing>"}
+	}
+	ast.Inspect(body, func(n ast.Node) bool {
+		switch x := n.(type) {
+		case *ast.IfStmt:
+			out = append(out, "if "+types.ExprString(x.Cond))
+		case *ast.UnaryExpr:
+			if x.Op == token.ARROW {
+				out = append(out, "<-"+types.ExprString(x.X))
+			}
+		case *ast.SendStmt:
+			out = append(out, "send "+types.ExprString(x.Chan))
+		case *ast.CallExpr:
+			f := types.ExprString(x.Fun)
+			switch {
+			case strings.Contains(f, "logger."), f == "verifhook.Yield", strings.HasSuffix(f, ".Incr"), strings.HasSuffix(f, ".String"):
+				return true
+			case strings.HasSuffix(f, "isSuspend.CompareAndSwap"):
+				return true // already listed as the if-condition
+			}
+			out = append(out, "call "+f)
 		}
 		return true
 	})
